@@ -87,6 +87,9 @@ def corpus(rep):
     for n in ((1000, 4000, 16000) if quick else (1000, 4000, 16000, 64000)):
         for name, d in families(n):
             cases.append(("family:%s:%d" % (name, n), {"data": d}))
+    init = next(d for n, d in readcheck.canned() if n == "minimal_init.mp4")
+    bombs = readcheck.frag_default_bombs(init)
+    cases += [("family:" + lab, c) for lab, c in (bombs[::5] if quick else bombs)]
     return cases
 
 
@@ -103,7 +106,7 @@ def check(rep):
     stats = {"cases": len(cases), "open_ok": 0, "model_skipped": 0, "max_ops_per_byte": 0.0, "max_bytes_per_byte": 0.0, "families": {}}
     distinct = set()
     for profile in ("release", "debug"):
-        res = readcheck.run_both([c for _, c in cases], profile)
+        res = readcheck.run_both([c for _, c in cases], profile, revisit=False)
         for (label, c), (impl, model) in zip(cases, res):
             n = len(c["data"])
             if "dead" in impl:
